@@ -348,6 +348,11 @@ func (p *service) processSubscribe(msg *message.SubscribeMessage) error {
 	}
 
 	for _, rm := range p.rmsgs {
+		// (rm is a copy; like forwarded messages it gets a packet identifier
+		// of this connection instead of the original publisher's)
+		if rm.QoS() != message.QosAtMostOnce {
+			rm.SetPacketID(p.nextPacketID())
+		}
 		if err := p.publish(rm, nil); err != nil {
 			log.Warningf("(%s) Error publishing retained message: %v", p.cid(), err)
 			return err
